@@ -167,7 +167,16 @@ func adjustDuration(d *time.Duration, value string, scale time.Duration) error {
 	if err != nil {
 		return err
 	}
-	*d += time.Duration(i) * scale
+	// refuse what does not fit a time.Duration instead of silently wrapping around
+	n := time.Duration(i)
+	if n > math.MaxInt64/scale || n < math.MinInt64/scale {
+		return errors.New("interval out of range")
+	}
+	delta := n * scale
+	if (delta > 0 && *d > math.MaxInt64-delta) || (delta < 0 && *d < math.MinInt64-delta) {
+		return errors.New("interval out of range")
+	}
+	*d += delta
 	return nil
 }
 
